@@ -38,7 +38,7 @@ func main() {
 		}
 		return true
 	})
-	kinds := []string{"solve-cert", "count", "optimal", "maxsat", "mus", "subset", "bf", "bf-dnf"}
+	kinds := []string{"solve-cert", "count", "optimal", "maxsat", "mus", "subset", "bf", "bf-dnf", "solve-cp"}
 	mismatches := 0
 	groups := 0
 	streams := 0
@@ -58,6 +58,9 @@ func main() {
 				for v := 1; v <= ns[i]; v++ {
 					t.Cost = append(t.Cost, v)
 				}
+			}
+			if t.Kind == "solve-cp" {
+				t.F, t.N = nil, 4 // pigeonhole with 4 holes
 			}
 			if t.Kind == "count" && ns[i] > 8 {
 				t.Kind = "solve-cert"
